@@ -42,8 +42,8 @@ def body(led):
 
 
 def _standin(led):
-    from . import sparse_standin
-    sparse_standin.check(led, ['make_symmetric', 'finalize_symmetric_matrix'])
+    from . import sparse_proof
+    sparse_proof.check(led, ['make_symmetric', 'finalize_symmetric_matrix'])
 
 
 def main():
